@@ -256,8 +256,13 @@ impl LiveOverlay {
         };
 
         let mut ancestor_data = Vec::new();
-        for (supposed_ancestor, actual_ancestor) in live_ancestors.zip(parent.ancestor_data.iter())
-        {
+        let mut actual_ancestors = parent.ancestor_data.iter();
+        for supposed_ancestor in live_ancestors {
+            // more overlays supplied than the parent has ancestors: the extra ones cannot be
+            // ancestors.
+            let Some(actual_ancestor) = actual_ancestors.next() else {
+                return Err(InvalidAncestors::NotAncestor);
+            };
             let Some(actual_ancestor) = actual_ancestor.upgrade() else {
                 return Err(InvalidAncestors::Incomplete);
             };
